@@ -140,6 +140,12 @@ SPEC += [
      }},
 ]
 
+_spec_of('dataquery')['small_methods'] = {
+    'NodePath': {'attrs': {'path_string': 'str', 'subset_slice': 'opt[intorslice]', 'components': 'list[PathComponent]'},
+                 'methods': {'slice_to_str': {'params': {'slc': 'opt[intorslice]'}},
+                             '__str__': {}}},
+}
+
 _spec_of('mdquery').setdefault('classes', {}).update({
     'MetadataExprParser': {'attrs': {}, 'methods': {
         'parse': {'params': {'metadata_expr': 'str'}, 'compiler': 'small',
@@ -2306,6 +2312,9 @@ class ModuleGen(object):
                 st.append('  %s : %s' % (lean_ident(k), lean_type(attrs[k])))
             func_texts.append('\n'.join(st))
             func_texts.extend(texts)
+        if spec.get('small_methods'):                           # w5-smallsrc: read-only methods
+            from harness import py2lean_small
+            py2lean_small.render_small_methods(self, spec, func_texts)
         for fname, fs in spec.get('fragments', {}).items():     # w5-smallsrc: harness/py2lean_small.py
             from harness import py2lean_small
             text, item = py2lean_small.render_fragment(self, fname, fs)
